@@ -1340,6 +1340,24 @@ func (c Clause) ReplaceWildcards() Clause {
 	if !vars[Variable{"_"}] { // If no wildcards
 		return c
 	}
+	// The fresh variables must also differ from the variables that only occur
+	// in the transform or in the temporal annotation of the head.
+	for t := c.Transform; t != nil; t = t.Next {
+		for _, stmt := range t.Statements {
+			if stmt.Var != nil {
+				vars[*stmt.Var] = true
+			}
+			AddVars(stmt.Fn, vars)
+		}
+	}
+	if c.HeadTime != nil {
+		if c.HeadTime.Start.Type == VariableBound {
+			vars[c.HeadTime.Start.Variable] = true
+		}
+		if c.HeadTime.End.Type == VariableBound {
+			vars[c.HeadTime.End.Variable] = true
+		}
+	}
 	newPremises := make([]Term, len(c.Premises))
 	for i, p := range c.Premises {
 		newPremises[i] = ReplaceWildcards(vars, p)
